@@ -12,13 +12,15 @@ for name in sys.argv[1:]:
     if not res.get("confirmed"):
         print("not confirmed:", name); continue
     meta["breaks_property"] = res["property"]
+    if res.get("note"):
+        meta["note"] = res["note"]
     meta["needs_to_manifest"] = meta.get("needs", "")
     meta["confirmed_by"] = {
         "what_was_run": "tools/try_seed.py: scratch worktree of /repo HEAD under /tmp; git apply patch.diff; demo.py exit "
                         "1 with the change and 0 without; repository test suite with the change",
         "demo_without_change_rc": res.get("demo_without"), "demo_with_change_rc": res.get("demo_with"),
         "repo_tests_with_change": res.get("tests_with"), "patch_apply": res.get("apply")}
-    meta["detection"] = {"check": "vcheck.py %s --tier %s" % (res["property"], res.get("tier")), "exit_code": res.get("check_rc"),
+    meta["detection"] = {"check": "vcheck.py %s --tier %s" % (res.get("check_property", res["property"]), res.get("tier")), "exit_code": res.get("check_rc"),
                          "detected": res.get("detected"), "first_lines": res.get("check_lines", [])[:4]}
     dst = os.path.join(HERE, "seeded", name)
     if os.path.exists(dst):
